@@ -146,6 +146,10 @@ class C03(PropCheck):
             out.append({"k": "chain", "root": "coro", "links": [rng.choice(chains.CORO_LINKS) for _ in range(n)],
                         "end": "trap", "two_points": False, "step": 0})
             out.append({"k": "chain", "root": "gen", "links": ["yield_from"] * n, "end": "trap", "two_points": False, "step": 0})
+        # chains that end where code running under asyncio really ends: on a pending asyncio.Future (its C iterator is the leaf)
+        for n in range(0, 4):
+            for links in itertools.product(["await_coro", "await_wrapper", "agen_asend"], repeat=n):
+                out.append({"k": "chain", "root": "coro", "links": list(links), "end": "asyncio_future", "two_points": False, "step": 0})
         # the same chains under process-wide settings that must not matter
         for c in [c for c in out if 2 <= len(c["links"]) <= 6][:40 if tier == "quick" else 400]:
             out.append(dict(c, tblimit=rng.choice([0, 1, 2, -1])))
